@@ -395,7 +395,9 @@ def check_c04(rec, names, Model, seed):
         for p in range(L):
             feasible = all(0 <= p + k < L for k in offsets)
             for t in (p, p - L):
-                for entry in ('solve_t', 'solve'):
+                for entry, offset in (('solve_t', 0), ('solve', 0), ('solve_t', 1), ('solve_t', -1)):
+                    if offset and not (0 <= p + offset < L):
+                        continue
                     m = Model(span)
                     table = data_table(all_names, L, 2, seed + p)
                     for nm in all_names:
@@ -406,7 +408,7 @@ def check_c04(rec, names, Model, seed):
                         warnings.simplefilter('ignore')
                         try:
                             if entry == 'solve_t':
-                                m.solve_t(t, max_iter=2, failures='ignore', errors='ignore')
+                                m.solve_t(t, max_iter=2, failures='ignore', errors='ignore', offset=offset)
                             else:
                                 if t < 0:
                                     continue
@@ -426,6 +428,8 @@ def check_c04(rec, names, Model, seed):
                         if raised not in (None, 'SolutionError', 'ZeroDivisionError', 'OverflowError'):
                             raise Mis('c04-feasible-period-raised', exc=raised, t=t, L=L)
                         allowed = {(nm, p + k) for nm, k in writes} | {('status', p), ('iterations', p)}
+                        if offset:
+                            allowed |= {(nm, p) for nm in endo}  # the offset copy seeds the endogenous variables of period t
                         extra = changed - allowed
                         if extra:
                             raise Mis('c04-touched-other-cells', t=t, L=L, extra=sorted(map(str, extra)))
